@@ -238,6 +238,16 @@ class BlockDiagNormal(ssm_impl_api.AbstractTreeNormal[BlockDiagTreeFlatten]):
         utilities.verify_taylor_coefficient_pytree(mean)
         utilities.verify_taylor_coefficient_pytree(std)
 
+        # The std must mirror the mean leaf by leaf; flattening would
+        # otherwise reshape or broadcast a mis-shaped container silently.
+        shapes_mean = [tree.tree_map(np.shape, m) for m in mean]
+        shapes_std = [tree.tree_map(np.shape, s) for s in std]
+        if shapes_mean != shapes_std:
+            msg = "'std' must have the same pytree structure and leaf shapes as mean."
+            msg += f" Expected: {shapes_mean}."
+            msg += f" Received: {shapes_std}."
+            raise ValueError(msg)
+
         tree_flatten = BlockDiagTreeFlatten.from_example(mean)
 
         loc_flat = tree_flatten.flatten_tree(mean)
